@@ -33,7 +33,7 @@ META = {
     "design_ref": "DESIGN.md §3 C10",
     "engines": ["backends"],
 }
-REQUIRED = ("suggest_calls", "cond_float_range", "cond_step_grid", "cond_int", "cond_categorical", "cond_reask_same", "cond_fixed_verbatim",
+REQUIRED = ("parameters_redeclared_with_another_range_mid_run", "suggest_calls", "cond_float_range", "cond_step_grid", "cond_int", "cond_categorical", "cond_reask_same", "cond_fixed_verbatim",
             "cond_stored_equals_received", "relative_mode_values", "independent_mode_values")
 SHARDS = {"quick": 14, "thorough": 16}
 WATCHDOG_S = {"quick": 900, "thorough": 4 * 3600}
@@ -121,6 +121,50 @@ def do_suggest(t, name, d):
     return t.suggest_categorical(name, d[1])
 
 
+def redeclared(rng, d):
+    """The same name declared with ANOTHER range later in the same run (dynamic search spaces are allowed for numeric
+    parameters as long as kind and log-ness stay): disjoint / wider / narrower, stepped grids shifted by whole steps."""
+    if d[0] == "cat":
+        return d
+    try:
+        if as_distribution(d).single():
+            return d
+    except ValueError:
+        return d
+    lo, hi = d[1], d[2]
+    mode = rng.choice(["disjoint", "disjoint", "wider", "narrower"])
+    if d[0] == "int":
+        st = d[4] or 1
+        n = max((hi - lo) // st, 1)
+        k = (n + 1) * st
+        lo2, hi2 = {"disjoint": (lo + 2 * k, hi + 2 * k), "wider": (lo - k, hi + k), "narrower": (lo, lo + (n // 2) * st)}[mode]
+        if d[3]:
+            lo2 = max(1, lo2)
+            hi2 = max(lo2, hi2)
+    elif d[3]:
+        r = min(hi / lo, 1.5)
+        lo2, hi2 = {"disjoint": (hi * r, hi * r * r), "wider": (lo / r, hi * r), "narrower": (lo * r ** 0.25, hi / r ** 0.25)}[mode]
+        if not (1e-300 < lo2 <= hi2 < 1e300):
+            return d
+    else:
+        w = hi - lo
+        if d[4] is not None:
+            w = d[4] * (int(w / d[4]) + 1)
+        lo2, hi2 = {"disjoint": (hi + w, hi + 2 * w) if d[4] is None else (lo + 2 * w, hi + 2 * w), "wider": (lo - w, hi + w), "narrower": (lo, lo + (hi - lo) / 2)}[mode]
+        if not (math.isfinite(lo2) and math.isfinite(hi2)) or (d[4] is not None and mode == "narrower"):
+            return d
+    d2 = (d[0], lo2, hi2, d[3], d[4], d[5])
+    try:
+        import warnings
+
+        with warnings.catch_warnings():
+            warnings.simplefilter("error")
+            as_distribution(d2)
+    except Exception:  # noqa: BLE001
+        return d
+    return d2
+
+
 def is_finite_space(d) -> bool:
     return d[0] == "cat" or (d[0] == "int" and not d[3] and (d[2] - d[1]) // d[4] <= 6) or (d[0] == "float" and d[4] is not None and (d[2] - d[1]) / d[4] <= 6)
 
@@ -141,7 +185,8 @@ def _install_monitor():
             return
         sc = _CUR["scenario"] or {}
         ctx.count("suggest_calls")
-        facts = {"sampler": sc.get("sampler"), "dist_family": sc.get("families", {}).get(name), "history": sc.get("history")}
+        facts = {"sampler": sc.get("sampler"), "dist_family": sc.get("families", {}).get(name), "history": sc.get("history"),
+                 "range_redeclared_mid_run": bool(sc.get("redeclared"))}
         case = {**{k: sc.get(k) for k in ("sampler", "history", "backend", "scenario_index", "dists", "seed")}, "param": name}
         rel = name in getattr(trial, "relative_search_space", {})
         ctx.count("relative_mode_values" if rel else "independent_mode_values")
@@ -419,19 +464,35 @@ def run_scenario(ctx: Ctx, rng, store, kind: str, sidx: int, sampler_name: str) 
 
         st_obj.set_trial_param = flaky_set_trial_param
 
+    # every 4th scenario re-declares the numeric parameters with another range half-way through the run (same sampler object)
+    redeclare_at = None
+    # (an enqueued / PartialFixedSampler value outside the new range is passed through with a warning, by design)
+    if sidx % 4 == 1 and sampler_name not in ("grid", "bruteforce", "partial_fixed") and n_enq == 0:
+        redeclare_at = rng.randint(2, 5)
+    cur = dict(dists)
+    n_run = [0]
+
     def objective(trial):
         got = {}
         names = list(dists)
+        n_run[0] += 1
+        if redeclare_at is not None and n_run[0] == redeclare_at:
+            for name in names:
+                d2 = redeclared(rng, cur[name])
+                if d2 is not cur[name]:
+                    cur[name] = d2
+                    _CUR["scenario"]["redeclared"] = True
+                    ctx.count("parameters_redeclared_with_another_range_mid_run")
         for name in names:
             if len(names) > 1 and rng.random() < 0.15 and sampler_name not in ("grid", "bruteforce"):
                 continue  # conditional parameter
             try:
-                v = do_suggest(trial, name, dists[name])
+                v = do_suggest(trial, name, cur[name])
             except optuna.exceptions.StorageInternalError:
-                v = do_suggest(trial, name, dists[name])
+                v = do_suggest(trial, name, cur[name])
             got[name] = v
             if rng.random() < 0.3:
-                do_suggest(trial, name, dists[name])  # ask again
+                do_suggest(trial, name, cur[name])  # ask again
         received[trial._trial_id] = (trial.number, got, dict(trial.params))
         val = sum((hash((n, repr(v))) % 1000) / 1000.0 for n, v in got.items())
         return val if nobj == 1 else [val, -val + 0.1 * len(got)]
